@@ -1,4 +1,5 @@
 """Anchors found by type and role, shared by the rule modules."""
+import re
 from .facts import callee_name
 from .sym import walk_expr
 
@@ -34,7 +35,17 @@ def fields_by_type(f, struct_suffix, pred):
     """names of the fields of a local struct whose type text satisfies pred (roles by type, never by name)"""
     for p, a in f.adts.items():
         if names_type(p, struct_suffix) and a["kind"] == "Struct":
-            return [x["name"] for x in a["variants"][0]["fields"] if pred(x["ty"])]
+            direct = [x["name"] for x in a["variants"][0]["fields"] if pred(x["ty"])]
+            if direct:
+                return direct
+            # the fields may be grouped in a private sub-struct of the socket (`route: ReplyRoute { envelope, .. }`): `route.envelope`
+            nested = []
+            for x in a["variants"][0]["fields"]:
+                for p2, a2 in f.adts.items():
+                    nm = p2.split("::", 1)[1] if p2.startswith("zeromq::") else p2
+                    if a2["kind"] == "Struct" and x["ty"] in (nm, p2) and not a2.get("vis", "").startswith("Public"):
+                        nested += ["%s.%s" % (x["name"], y["name"]) for y in a2["variants"][0]["fields"] if pred(y["ty"])]
+            return nested
     return []
 
 
@@ -46,10 +57,15 @@ def type_holds(f, ty, what, depth=3):
         return False
     for p, a in f.adts.items():
         nm = p.split("::", 1)[1] if p.startswith("zeromq::") else p
-        if a["kind"] == "Struct" and (nm in ty or p in ty):
+        if a["kind"] == "Struct" and (nm in ty or p in ty or re.search(r"(?<![A-Za-z0-9_])%s(?![A-Za-z0-9_])" % re.escape(p.split("::")[-1]), ty)):
             if any(type_holds(f, x["ty"], what, depth - 1) for x in a["variants"][0]["fields"]):
                 return True
     return False
+
+
+def is_field(y, path):
+    """y is the place `<..>.path` (`path` may be dotted: a field of a private sub-struct or newtype)"""
+    return isinstance(y, tuple) and bool(y) and y[0] == "field" and place_text(y).endswith("." + path)
 
 
 def place_text(e):
